@@ -868,6 +868,9 @@ func (fr *Frame) selectInstr(x *ssa.Select, reach T, st *State) {
 	}
 	fr.selectHook(x, idx, reach, st)
 	fr.tuples[x] = tu
+	// `at select N after set g = sel == 0`: sel is the index of the chosen case (-1: default), recvok the comma-ok flag
+	fr.ghostAt("select", fr.selOrd[x], "select", "after", reach, st, map[string]Val{
+		"sel": {t: idx, typ: types.Typ[types.Int]}, "recvok": {t: tu[1], typ: types.Typ[types.Bool]}})
 }
 
 func (fr *Frame) send(x *ssa.Send, reach T, st *State) {
